@@ -3,6 +3,10 @@ open Egutil
 open Rawdata
 open Framebuffer
 
+(* the harness target has a 64-bit usize: run the usize64 instance of the model *)
+let fb_pixel = Framebuffer.fb_pixel Rawdata.usize64
+let image_draw_colors = Framebuffer.image_draw_colors Rawdata.usize64
+
 let ty = function
   | "1" -> U1 | "2" -> U2 | "4" -> U4 | "8" -> U8 | "16" -> U16 | "24" -> U24 | "32" -> U32
   | _ -> failwith "bpp"
@@ -14,13 +18,8 @@ let ints s = Stdlib.List.map int_of_string (split_on ':' s)
 (* background: byte i = (a * i + b) mod 256 *)
 let preset n a b = Stdlib.List.init n (fun i -> z_of_int ((a * i + b) mod 256))
 
-(* points of Rectangle::points(): row-major, nothing for a zero-sized rectangle *)
-let rect_points x y w h =
-  let out = ref [] in
-  for yy = y + h - 1 downto y do
-    for xx = x + w - 1 downto x do out := (xx, yy) :: !out done
-  done;
-  !out
+let rect x y w h = { Geometry.tl = { Geometry.px = z_of_int x; py = z_of_int y };
+                     sz = { Geometry.sw = z_of_int w; sh = z_of_int h } }
 
 let apply cfg data op =
   let k = Stdlib.String.sub op 0 1 in
@@ -34,17 +33,19 @@ let apply cfg data op =
       let px = if rest = "" then [] else
         Stdlib.List.map (fun tok -> match ints tok with [x; y; v] -> (pt x y, v_of v) | _ -> failwith "D") (split_on ';' rest) in
       fb_draw_iter cfg data px
+  (* the inherited DrawTarget methods: the model's trait defaults (Model/Framebuffer.v) *)
   | "F" -> (match ints rest with
-            | [x; y; w; h; v] ->
-                (* DrawTarget::fill_solid default: draw_iter(area.points().map(|p| Pixel(p, color))) *)
-                fb_draw_iter cfg data (Stdlib.List.map (fun (xx, yy) -> (pt xx yy, v_of v)) (rect_points x y w h))
+            | [x; y; w; h; v] -> fb_fill_solid cfg data (rect x y w h) (v_of v)
             | _ -> failwith "F")
-  | "C" -> (match ints rest with
-            | [v] ->
-                (* DrawTarget::clear default: fill_solid(&self.bounding_box(), color) *)
-                let w = int_of_z (fb_w cfg) and h = int_of_z (fb_h cfg) in
-                fb_draw_iter cfg data (Stdlib.List.map (fun (xx, yy) -> (pt xx yy, v_of v)) (rect_points 0 0 w h))
-            | _ -> failwith "C")
+  | "G" -> (match split_on '/' rest with
+            | [r; cols] ->
+                (match ints r with
+                 | [x; y; w; h] ->
+                     let cs = if cols = "" then [] else Stdlib.List.map (fun s -> v_of (int_of_string s)) (split_on ',' cols) in
+                     fb_fill_contiguous cfg data (rect x y w h) (Target.Fin cs)
+                 | _ -> failwith "G")
+            | _ -> failwith "G")
+  | "C" -> (match ints rest with [v] -> fb_clear cfg data (v_of v) | _ -> failwith "C")
   | _ -> failwith "op"
 
 let setup bpp alt w h e a b =
